@@ -1857,7 +1857,8 @@ plus  = PlusInterfaceOperator
 _is_op_test_function = lambda op: (isinstance(op, (Grad, Curl, Div)) and
                                    isinstance(op._args[0], (ScalarFunction, VectorFunction)))
 
-_is_sympde_atom   = lambda a: isinstance(a, (ScalarFunction, VectorFunction, minus, plus))
+_is_sympde_atom   = lambda a: (isinstance(a, (ScalarFunction, VectorFunction)) or
+                                 (isinstance(a, (minus, plus)) and _is_sympde_atom(a.args[0])))
 
 def add_basicop(expr):
     return BasicOperatorAdd(*expr.args)
